@@ -17,5 +17,5 @@ CFG = {
             "distinct = distinct (implementation, comparator, mutator list).",
     "assumptions": ["Go int arithmetic does not overflow (sizes and ranks are below 2^31)",
                     "comparators are deterministic and satisfy the TotalOrder laws of C01/Spec.v (total preorder; only the sign is used)",
-                    "the red-black delete family of the model runs on fuel nodes+1; fuel exhaustion would be reported as HANG"],
+                    "the red-black delete family of the model runs on fuel nodes+1 (proved sufficient: C01_refines shows no Hang)"],
 }
